@@ -12,7 +12,7 @@ from vpkit import common, zoo
 
 ID = "C21"
 N = {"quick": 260, "thorough": 8000}
-BUDGET = {"quick": 240.0, "thorough": 1500.0}
+BUDGET = {"quick": 240.0, "thorough": 700.0}
 RULE = ("case = (zoo input incl. diploid unphased, historical / internal samples, a 300-child star that "
         "forces mid-iteration rescaling; max_shape 1.5..1e6, 1..40 iterations, regularisation on/off); "
         "distinct by (topology hash, options); non-trivial = >=1 iteration-end event judged")
